@@ -354,6 +354,24 @@ Proof. exact C01_step. Qed.
 Print Assumptions C01_step_primary.
 """
 
+TRANSPORT_ALT_SNAP_V = """(* per-run: C01_step for the regenerated model of the alternative interpreter THROUGH THE SNAPSHOTS only:
+   static C01_step (about Snapshot.GenCpu65.Step), static Snapshot.GenCpu65.Step = Snapshot.GenCpuAlt.Step (Props/C02Snap.v),
+   per-run Snapshot.GenCpuAlt.Step = Gen.GenCpuAlt.Step.  Independent of the regenerated model of the PRIMARY interpreter: the
+   route taken when that model was restructured one-sidedly (so that C02's equality of the two regenerated models is open). *)
+From Coq Require Import ZArith List.
+From Lib Require Import Machine.
+From Spec Require Import Spec816.
+From Snapshot Require Import GenFields.
+From Snapshot Require GenCpu65 GenCpuAlt.
+From Gen Require GenCpuAlt.
+From Props Require Import C01Base C01AdcRef C01Props.
+From Props Require C02Snap.
+From Run Require C02_snapalt.
+Theorem C01_step_alternative : %(alt)s.
+Proof. rewrite <- C02_snapalt.seq_Step. rewrite <- C02Snap.C02_step_eq. exact C01_step. Qed.
+Print Assumptions C01_step_alternative.
+"""
+
 TRANSPORT_ALT_V = """(* per-run: C01_step for the regenerated model of the alternative interpreter, through C02's equality *)
 From Coq Require Import ZArith List.
 From Lib Require Import Machine.
@@ -487,10 +505,19 @@ Print Assumptions C01_run_run.""" % (STEP_STMT % "Step")) if full else ""))
     ta = os.path.join(vlib.RUN, "C01_transport_alt.v")
     vlib.write_if_changed(ta, TRANSPORT_ALT_V % stm)
     rca, outa = 1, ""
+    alt_route = "C02_step_eq : GenCpu65.Step = GenCpuAlt.Step"
     if rct == 0 and rce == 0:
         rca, outa, _, _ = vlib.coqc(ta, timeout=900)
-    ck.oblige("Theorem C01_step_alternative: C01_step for the REGENERATED model of emulator/cpualt (Gen.GenCpuAlt.Step), through "
-              "C02_step_eq : GenCpu65.Step = GenCpuAlt.Step", rca == 0,
+    alt_snapshot_route = False
+    if rca != 0 and lk["snap"]["GenCpuAlt"][0] and os.path.exists(os.path.join(vlib.COQ, "Props", "C02Snap.vo")):
+        # the primary model was restructured one-sidedly (or its transport failed): the alternative interpreter is still equal to
+        # ITS snapshot, and the static theorems about the snapshots give C01_step for it without the regenerated primary model
+        vlib.write_if_changed(ta, TRANSPORT_ALT_SNAP_V % stm)
+        rca, outa, _, _ = vlib.coqc(ta, timeout=900)
+        alt_snapshot_route = rca == 0
+        alt_route = "the snapshots only (static C01_step + static C02Snap.C02_step_eq + per-run Snapshot.GenCpuAlt.f = Gen.GenCpuAlt.f)"
+        ck.cov["alt_route"] = "snapshots"
+    ck.oblige("Theorem C01_step_alternative: C01_step for the REGENERATED model of emulator/cpualt (Gen.GenCpuAlt.Step), through " + alt_route, rca == 0,
               outa if rce == 0 else "C02's equality of the two regenerated models no longer checks (%s): the alternative interpreter is "
               "covered by the differential run only" % cpulink.first_failing(oute))
     if rca == 0:
@@ -498,7 +525,7 @@ Print Assumptions C01_run_run.""" % (STEP_STMT % "Step")) if full else ""))
     ck.sample({"theorem": "C01_step_alternative : " + stm["alt"]})
     # --- the interrupt latch: after every Step it reads 1, so C01_run needs "no interrupt pending" at the first state only
     from checks import cpulatch
-    alt_ok = rca == 0
+    alt_ok = rca == 0 and not (alt_snapshot_route and "C01L_" in stm["imports"])   # mixed live/snapshot definitions: primary run theorem only
 
     lfiles = {}
     for mod in ("GenCpu65", "GenCpuAlt"):      # generation is sequential (it switches a module-level setting of cpusafe)
